@@ -114,6 +114,23 @@ def coq_makefile():
             raise RuntimeError("coq_makefile failed: " + out)
 
 
+def make(target, timeout):
+    """make one target; when the file set changed under us (another writer added/removed a .v), regenerate and retry."""
+    rc, out = 1, ""
+    for attempt in range(3):
+        rc, out = sh(["make", "-j16", target], cwd=COQ, timeout=timeout)
+        if rc != 0 and "No rule to make target" in out:
+            try:
+                os.remove(os.path.join(COQ, "Makefile"))
+            except FileNotFoundError:
+                pass
+            coq_makefile()
+            time.sleep(1)
+            continue
+        break
+    return rc, out
+
+
 def cone(target_v):
     """Source files the target depends on (within coq/)."""
     rc, out = sh(["coqdep", "-Q", ".", "FH", "-sort", target_v], cwd=COQ, timeout=120)
@@ -243,7 +260,7 @@ def main(argv):
         proof_err = ""
         assumptions = {}
         if tie_broken is None:
-            rc, out = sh(["make", "-j16", check_v + "o"], cwd=COQ, timeout=cfg.get("coq_timeout", 1800))
+            rc, out = make(check_v + "o", cfg.get("coq_timeout", 1800))
             model_ok = rc == 0
             if not model_ok:
                 tie_broken = "model does not build against the regenerated data: " + out[-3000:]
@@ -254,7 +271,7 @@ def main(argv):
                 os.remove(os.path.join(COQ, prop_v + "o"))
             except FileNotFoundError:
                 pass
-            rc, out = sh(["make", "-j16", prop_v + "o"], cwd=COQ, timeout=cfg.get("coq_timeout", 1800))
+            rc, out = make(prop_v + "o", cfg.get("coq_timeout", 1800))
             proof_ok = rc == 0
             if proof_ok:
                 assumptions = parse_assumptions(out, re.findall(r"Print Assumptions\s+([A-Za-z0-9_']+)", strip_comments(src)))
